@@ -77,6 +77,8 @@ def run(tier):
             n_q, n_v, n_f = len(S.queries), len(S.violations), len(S.functions)
             v0, s0, e0 = S.validated, S.solver_s, S.exec_s
             bounds = typercheck.run(S, tier)
+            import declarecheck
+            bounds.update(declarecheck.run(S, tier))
             viol = [{k: v for k, v in x.items() if k != 'model'} for x in S.violations[n_v:]]
             tx.send(('ok', bounds, S.queries[n_q:], viol, S.functions[n_f:], S.validated - v0, S.solver_s - s0, S.exec_s - e0))
         except Inconclusive as e:
@@ -113,7 +115,7 @@ def run(tier):
         # more containers, leaf types only (the number of containers is cheap, the type depth is not)
         more = containercheck.run(S, tier, bounds=(6, 1), sfx='@6x1')
         S.container_bounds['second_configuration'] = {'containers': more['containers'], 'container_type_depth': more['container_type_depth']}
-    return finish(S, tier, ['order independence of whole programs beyond the depth mechanism, duplicate-name detection (predeclare): not encoded',
+    return finish(S, tier, ['order independence of whole programs beyond the depth mechanism and the per-declaration rules decided here',
                             'analyzer states after the first reported containment cycle (the module is rejected already)',
                             'resolution ids of 8 and above (the HashSet<u32> model is an 8-bit set)'])
 
